@@ -3,3 +3,5 @@ import CvProofs.RefBfs
 import CvProofs.Tensor
 import CvProofs.Hash
 import CvProofs.Codec
+import CvProofs.Bfs
+import CvProofs.BfsExample
